@@ -20,3 +20,11 @@ package types
 //@   ensures bits > 0 ==> result != nil && fresh(result) && result.Bits == bits && forall i int :: !bit(result, i)
 //@   ensures bits <= 0 ==> result == nil
 //@   modifies nothing
+
+//@ # ---------------------------------------------------------------- address comparison (owner gates, C05/C22)
+//@ # ASSUMED: bytes.Compare over the 20 bytes is 0 exactly for equal addresses (byte comparison is not modelled)
+//@ func (*Address).Compare
+//@   trusted
+//@   requires a != nil
+//@   ensures equal: (result == 0) <==> (deref(a) == a2)
+//@   modifies nothing
